@@ -31,3 +31,15 @@ func validCRW(c *CompressingResponseWriter) bool {
 		(c.writer != nil && heldBy(c.compressor) == 1 &&
 			((c.encoding == "gzip" && isGzipWriter(c.compressor)) || (c.encoding == "deflate" && isZlibWriter(c.compressor))))
 }
+
+// ownCloses(c): how often package code has called c.Close() (a ghost counter
+// only the Close contract advances; callbacks cannot touch it).
+func ownCloses(c *CompressingResponseWriter) int { return ghostInt("own.closes", c) }
+
+// encodingEnabledFor: the route's own setting overrides the container's.
+func encodingEnabledFor(c *Container, r *Route) bool {
+	if r != nil && r.contentEncodingEnabled != nil {
+		return *r.contentEncodingEnabled
+	}
+	return c.contentEncodingEnabled
+}
